@@ -4,3 +4,5 @@
 pub struct ExSocketAddr(SocketAddr);
 pub assume_specification[ <SocketAddr as PartialEq>::eq ](a: &SocketAddr, b: &SocketAddr) -> (r: bool)
     ensures r == (*a == *b);
+// TRUSTED: SocketAddr's Hash/Eq agree (std derive on plain data)
+pub broadcast axiom fn sockaddr_key_model() ensures #[trigger] vstd::std_specs::hash::obeys_key_model::<SocketAddr>();
